@@ -18,6 +18,7 @@ pub enum Tier {
     Quick,
     Thorough,
 }
+pub const QUICK_SCALE: u32 = 4;
 impl Tier {
     pub fn as_str(&self) -> &'static str {
         match self {
@@ -27,7 +28,9 @@ impl Tier {
     }
     pub fn pick(&self, quick: u32, thorough: u32) -> u32 {
         match self {
-            Tier::Quick => quick,
+            // the per-check numbers were sized while the checks were built (2-15 s each); the
+            // registered quick tier runs four times that fixed amount of work
+            Tier::Quick => quick.saturating_mul(QUICK_SCALE).min(thorough),
             Tier::Thorough => thorough,
         }
     }
